@@ -1,6 +1,7 @@
 import RvModel.Prelude
 import RvModel.Gen.Defs
 import RvModel.Hand.Legendre
+import RvModel.Hand.C08Extra
 /-!
   Hand.Mixture — hand model of `src/dist/mixture.rs` (`Mixture<Fx>`) over an ABSTRACT component family.
 
@@ -319,6 +320,56 @@ def entropyQuad (weights : List α) (cs : List (QComp α)) : Option α :=
 def gaussQComp (g : Gen.Gaussian α) : QComp α :=
   let b := Gen.Gaussian.interval_real g (0.999999999999 : α)
   { comp := gaussComp g, mode := Gen.Gaussian.mode_real g, qlo := b.1, qhi := b.2 }
+
+/-! ## entropies of discrete mixtures (mixture.rs:696-774, misc/entropy.rs:3-46) -/
+
+/-- misc/entropy.rs:3-36 `count_entropy_range(fx, mid, lower, upper)`: `-Σ f ln f` enumerated downwards from `mid` until
+    `left == 0 || (left <= lower && f < 1e-16)` and upwards from `mid + 1` until `right >= upper && f < 1e-16`.
+    The two loops are `Hand.C08.leftLoop` / `rightLoop` (Hand/C08Extra.lean, the single-Poisson model); fuel: the left loop
+    makes at most `mid + 1` steps, the right loop is given `upper + 100000` steps. -/
+def countEntropyRange (lnF : Nat → α) (mid lower upper : Nat) : α :=
+  let h := Hand.C08.leftLoop lnF lower (mid + 2) mid (0.0 : α)
+  Hand.C08.rightLoop lnF upper (upper + 100000) (mid + 1) h
+
+/-- `x as u32` of a float: truncation, saturation at `u32::MAX`, NaN ↦ 0 -/
+def asU32 (x : α) : Nat := satNat 32 (RealLike.toNat x)
+
+/-- mixture.rs:729-772 `countmix_entropy!` (`Mixture<Poisson>`): one component ⇒ `count_entropy(self, mean as u32)`
+    (= range `mid, mid, mid + 1`); otherwise the sweep covers `[min mean, max mean]` of the component means
+    (:740-761) and starts at their midpoint (:762-767).  `none` = a panic (`components[0]`, `mean().unwrap()`). -/
+def countMixEntropy (m : Mix α Nat) : Option α :=
+  let lnf := fun x => lnF m x
+  if k m == 1 then                                                                 -- :734-738
+    (mean m).map (fun mu => let mid := asU32 mu; countEntropyRange lnf mid mid (mid + 1))
+  else
+    match m.comps with
+    | c0 :: c1 :: _ =>
+      match c0.mean, c1.mean with
+      | some a0, some b0 =>
+        let mm := if RealLike.gt a0 b0 then (b0, a0) else (a0, b0)                 -- :741-746
+        let lu := m.comps.foldl (fun (acc : Option (α × α)) c =>                   -- :748-761
+          match acc, c.mean with
+          | some (lower, upper), some mu =>
+            if RealLike.gt mu upper then some (lower, mu)
+            else if RealLike.lt mu lower then some (mu, upper) else some (lower, upper)
+          | _, _ => none) (some mm)
+        lu.map (fun (lower, upper) =>
+          countEntropyRange lnf (asU32 ((lower + upper) / (2.0 : α))) (asU32 lower) (asU32 upper))
+      | _, _ => none
+    | _ => none
+
+/-- mixture.rs:696-711 `bernmix_entropy!` (`Mixture<Bernoulli>`), AS CODED:
+    `ln_f(true).exp().mul_add(ln_f(true), ln_f(false).exp() * ln_f(false))` = `+Σ f ln f` (the sign is a C08 finding) -/
+def bernMixEntropy (m : Mix α Bool) : α :=
+  let lt := lnF m true
+  let lf := lnF m false
+  mulAdd (RealLike.exp lt) lt (RealLike.exp lf * lf)
+
+/-- mixture.rs:713-727 `catmix_entropy!` (`Mixture<Categorical>`): `-Σ_{x < k₀} f ln f`, `k₀` = number of categories of
+    the FIRST component; `kFirst = none` = the panic of `components()[0]` -/
+def catMixEntropy (m : Mix α Nat) (kFirst : Option Nat) : Option α :=
+  kFirst.map (fun k0 => (List.range k0).foldl
+    (fun acc x => let l := lnF m x; mulAdd (RealLike.exp l) (-l) acc) (0.0 : α))
 
 /-- a component that only carries two numbers (for the structural operations `combine`, `set_components`,
     pair conversion, which never call a component method: they are parametric in `Fx`) -/
